@@ -2,11 +2,13 @@
 //! Correspondence harness: runs command scripts against the real `crdts` crate (path dependency on
 //! /repo, rebuilt from the current working tree) and prints one canonical observation per command.
 mod canon;
+mod jcanon;
 mod machine;
 mod sut;
 mod tree;
 mod gen;
 mod gen_merkle;
+mod gen_persist;
 
 use machine::{Machine, Runner};
 use std::io::{BufRead, Write};
@@ -48,6 +50,9 @@ fn pure(toks: &[&str]) -> String {
         }
         if f.starts_with("list.") {
             return sut::glist::pure(f, args);
+        }
+        if f.starts_with("serde.") {
+            return sut::serde_vec::pure(f, args);
         }
         None
     });
